@@ -30,6 +30,8 @@ copied as they are (spec functions, lemmas, trusted prelude).  Directives:
       //@loop <n>              following lines: invariant/decreases clauses of the n-th loop (textual order, 1-based)
       //@before "<anchor>" [#k] / //@after "<anchor>" [#k]   following lines: ghost text spliced before/after the
                                line that contains the k-th occurrence of the anchor text
+      //@before-opt / //@after-opt   the same, but a missing anchor is fine (the ghost text is then simply not spliced; used for
+                               per-statement bookkeeping whose ABSENCE makes a later obligation fail instead of stopping the unit)
       //@bodystart             following lines: ghost text right after the opening brace of the body
   //@end
 
@@ -297,13 +299,16 @@ def build_item(repo, blk, cache):
         if n < 1 or n > len(loops): raise ToolError("LOST-ANCHOR //@loop %d: %s has %d loops" % (n, blk.path, len(loops)))
         kw, kpos, bpos, cpos = loops[n - 1]
         add(bpos, 0, "\n" + ltext + "\n", "ghost-loop")
-    for where, anchor, k, atext in blk.anchored:
+    for where, anchor, k, atext, *aopt in blk.anchored:
         # search inside the body only
         lo = parts["body_open"] - T0 if parts else 0
         p = lo - 1
         for _ in range(k):
             p = text.find(anchor, p + 1)
-            if p < 0: raise ToolError("LOST-ANCHOR //@%s %r #%d not found in %s :: %s" % (where, anchor, k, blk.file, blk.path))
+            if p < 0: break
+        if p < 0:
+            if aopt: continue
+            raise ToolError("LOST-ANCHOR //@%s %r #%d not found in %s :: %s" % (where, anchor, k, blk.file, blk.path))
         if where == "before":
             ls = text.rfind("\n", 0, p) + 1
             add(T0 + ls, 0, atext + "\n", "ghost-proof")
@@ -373,7 +378,7 @@ def generate(repo, unit_tmpl):
                 text = "\n".join(buf)
                 if cur[0] == "spec": blk.spec = text
                 elif cur[0] == "loop": blk.loops[cur[1]] = text
-                elif cur[0] in ("before", "after"): blk.anchored.append((cur[0], cur[1], cur[2], text))
+                elif cur[0] in ("before", "after"): blk.anchored.append((cur[0], cur[1], cur[2], text) + tuple(cur[3:]))
                 elif cur[0] == "bodystart": blk.bodystart = text
             buf = []
             while True:
@@ -408,12 +413,12 @@ def generate(repo, unit_tmpl):
                         blk.castfn = (ws[0], ws[1:])
                     elif d == "spec": cur = ("spec",)
                     elif d == "loop": cur = ("loop", int(rest))
-                    elif d in ("before", "after"):
+                    elif d in ("before", "after", "before-opt", "after-opt"):
                         anchor, r2 = parse_quoted(rest)
                         k = 1
                         mk = re.match(r"\s*#(\d+)", r2)
                         if mk: k = int(mk.group(1))
-                        cur = (d, anchor, k)
+                        cur = (d.replace("-opt", ""), anchor, k) + (("opt",) if d.endswith("-opt") else ())
                     elif d == "bodystart": cur = ("bodystart",)
                     else: raise ToolError("%s:%d unknown directive //@%s" % (tf, n2, d))
                 else:
